@@ -108,6 +108,14 @@ def combinator_obligations(prop='C07'):
 
 def _ident(name, lhs, rhs, function, where):
     d = sp.simplify(sp.expand((lhs - rhs).doit()))
+    if d != 0 and d.has(sp.Piecewise):
+        # a formula by cases: each case is compared under its own condition (an equality condition is substituted into the case)
+        def _case_zero(e, c):
+            for q in ([c] if isinstance(c, sp.Eq) else [a_ for a_ in getattr(c, 'args', ()) if isinstance(a_, sp.Eq)] if isinstance(c, sp.And) else []):
+                e = e.subs(q.lhs, q.rhs)
+            return sp.simplify(sp.expand(e)) == 0
+        pw = sp.piecewise_fold(d)
+        if isinstance(pw, sp.Piecewise) and all(_case_zero(e, c) for e, c in pw.args): d = sp.Integer(0)
     ok = (d == 0)
     o = B.static_obligation(name, ok, function, where, 'residual: %s' % str(d)[:300])
     o.kind = 'identity'; o.backend = 'sympy-exact (undetermined operands)'
